@@ -335,7 +335,7 @@ Definition exReads : list c07_read := [RdGet ra 0; RdGet rb 105; RdList (P ++ [4
 Definition exVariant : c07_variant :=
   mkV7 105 105 (map (fun o => ([], o)) [OOk; OOk; OFailOther]) 105 105 [KDelCur; KDel; KDel; KDel] None
        ([0; 1; 5], []) None [(WCreate ra [9], WOk); (WDelete rb 105, WOk)]
-       ([2], [RIdx ra 106 false; RVer ra 106 [9]; RIdx rb 107 true; RVer rb 107 tombstone]).
+       ([2], [RIdx ra 106 false; RVer ra 106 [9]; RIdx rb 107 true; RVer rb 107 tombstone]) 0.
 Definition exCase : c07_case :=
   mkC7 P [] (map (fun b => encode b 0) (compact_borders P [])) exW exReads (map (model_read exW max_rev) exReads) [exVariant].
 
@@ -359,7 +359,7 @@ Proof.
           intros r' v' H'. split_in; try discriminate; injection H' as <- _; lia.
         * intros Hn. left. intros r v H. split_in; injection H as <- _ _;
             first [solve [apply (Hn 103 true); cbn; auto 10]|solve [apply (Hn 105 false); cbn; auto 10]].
-    - constructor; [|constructor]. constructor; cbn [exVariant v7_oc v7_cur v7_req v7_cur2 v7_round].
+    - constructor; [|constructor]. constructor; cbn [exVariant v7_oc v7_cur v7_req v7_cur2 v7_round v7_iterfail].
       + eexists. reflexivity.
       + vm_compute. discriminate.
       + change (clamp 105 0 105) with 105. unfold exReads.
@@ -368,7 +368,8 @@ Proof.
       + split; [vm_compute; discriminate|]. unfold exW. split; intros k r x H; split_in; try discriminate;
           first [injection H as _ <- _|injection H as _ <-]; lia.
       + vm_compute. discriminate.
-      + repeat constructor; cbn; try discriminate; lia. }
+      + repeat constructor; cbn; try discriminate; lia.
+      + reflexivity. }
   assert (Hc : c07_check exCase = true) by (vm_compute; reflexivity).
   split; [exact Hv|]. split; [exact Hc|]. exact (c07_oracle_sound_seq exCase Hv Hc).
 Qed.
